@@ -223,7 +223,13 @@ pub struct CloneCase {
     pub kind: u8,
     pub n: usize,
     pub key: u64,
+    /// clone a tag that was parsed from memory (padding bytes 0x5A) instead
+    /// of one made by its constructor
+    #[serde(default)]
+    pub parsed: bool,
 }
+
+const PARSED_KINDS: [u32; 9] = [1, 2, 3, 6, 8, 9, 13, 16, 17];
 
 pub const CLONE_KINDS: u8 = 11;
 
@@ -237,16 +243,64 @@ pub fn eval_clone(c: &CloneCase, obs: &mut Obs) -> Result<(), String> {
     let n = c.n;
     let text: String = mb2_model::encode::ascii_markers(c.key, n, 0).into_iter().map(|b| b as char).collect();
     let blob: Vec<u8> = (0..n).map(|i| marker(c.key, i)).collect();
+    macro_rules! go_noeq {
+        ($name:expr, $t:expr) => {{
+            let t = $t;
+            let (a, sa) = img(&*t);
+            let cl = clone_dyn(&*t);
+            let (b, sb) = img(&*cl);
+            ($name, a, sa, b, sb, true)
+        }};
+    }
     macro_rules! go {
         ($name:expr, $t:expr) => {{
             let t = $t;
             let (a, sa) = img(&*t);
             let cl = clone_dyn(&*t);
             let (b, sb) = img(&*cl);
-            ($name, a, sa, b, sb)
+            // "an equal tag" also through the type's own equality, both ways,
+            // and for a clone of the clone
+            let cl2 = clone_dyn(&*cl);
+            let eq = *cl == *t && *t == *cl && *cl2 == *t && !(*cl != *t);
+            ($name, a, sa, b, sb, eq)
         }};
     }
-    let r = mb2_model::panics::catch(|| match c.kind % CLONE_KINDS {
+    let pk = PARSED_KINDS[c.kind as usize % PARSED_KINDS.len()];
+    let mut pimg = mb2_model::encode::conformant_tag(pk, c.key, n % 64, (c.key >> 8) as u32 & !0xff);
+    mb2_model::encode::pad8(&mut pimg, 0x5A);
+    let pa = Aligned::new(&pimg);
+    macro_rules! parsed {
+        ($name:expr, $T:ty) => {{
+            let g = DynSizedStructure::<m::TagHeader>::ref_from_slice(pa.as_slice()).expect("conformant tag image");
+            let t: &$T = g.cast::<$T>();
+            let (a, sa) = img(t);
+            let cl = clone_dyn(t);
+            let (b, sb) = img(&*cl);
+            let cl2 = clone_dyn(&*cl);
+            let eq = *cl == *t && *t == *cl && *cl2 == *t && !(*cl != *t);
+            ($name, a, sa, b, sb, eq)
+        }};
+    }
+    let r = mb2_model::panics::catch(|| if c.parsed {
+        match pk {
+            1 => parsed!("parsed CommandLineTag", m::CommandLineTag),
+            2 => parsed!("parsed BootLoaderNameTag", m::BootLoaderNameTag),
+            3 => parsed!("parsed ModuleTag", m::ModuleTag),
+            6 => parsed!("parsed MemoryMapTag", m::MemoryMapTag),
+            8 => parsed!("parsed FramebufferTag", m::FramebufferTag),
+            9 => parsed!("parsed ElfSectionsTag", m::ElfSectionsTag),
+            13 => parsed!("parsed SmbiosTag", m::SmbiosTag),
+            16 => {
+                let g = DynSizedStructure::<m::TagHeader>::ref_from_slice(pa.as_slice()).expect("conformant tag image");
+                let t: &m::NetworkTag = g.cast::<m::NetworkTag>();
+                let (a, sa) = img(t);
+                let cl = clone_dyn(t);
+                let (b, sb) = img(&*cl);
+                ("parsed NetworkTag", a, sa, b, sb, true)
+            }
+            _ => parsed!("parsed EFIMemoryMapTag", m::EFIMemoryMapTag),
+        }
+    } else { match c.kind % CLONE_KINDS {
         0 => go!("CommandLineTag", m::CommandLineTag::new(&text)),
         1 => go!("BootLoaderNameTag", m::BootLoaderNameTag::new(&text)),
         2 => go!("ModuleTag", m::ModuleTag::new(1, 2, &text)),
@@ -254,12 +308,12 @@ pub fn eval_clone(c: &CloneCase, obs: &mut Obs) -> Result<(), String> {
         4 => go!("FramebufferTag", m::FramebufferTag::new(c.key, 1, 2, 3, 4, m::FramebufferType::Indexed { palette: &(0..n % 9).map(|j| m::FramebufferColor { red: j as u8, green: 1, blue: 2 }).collect::<Vec<_>>() })),
         5 => go!("ElfSectionsTag", m::ElfSectionsTag::new(0, 64, 0, &blob)),
         6 => go!("SmbiosTag", m::SmbiosTag::new(3, 4, &blob)),
-        7 => go!("NetworkTag", m::NetworkTag::new(&blob)),
+        7 => go_noeq!("NetworkTag", m::NetworkTag::new(&blob)),
         8 => go!("EFIMemoryMapTag", m::EFIMemoryMapTag::new_from_map(48, 1, &blob)),
         9 => go!("InformationRequestHeaderTag", h::InformationRequestHeaderTag::new(h::HeaderTagFlag::Optional, &(0..n % 33).map(|j| h::MbiTagTypeId::new(j as u32 * 3)).collect::<Vec<_>>())),
         _ => go!("DynSizedStructure<TagHeader>", new_boxed::<DynSizedStructure<m::TagHeader>>(m::TagHeader::new(m::TagType::Custom(0x99), 0), &[&blob])),
-    });
-    let Some((name, a, sa, b, sb)) = r else { return Err(format!("kind {} content length {n}: constructor or clone_dyn panicked", c.kind)) };
+    }});
+    let Some((name, a, sa, b, sb, eq)) = r else { return Err(format!("kind {} content length {n}: constructor or clone_dyn panicked", c.kind)) };
     obs.class(format!("!{name}"));
     if sa % 8 != 0 {
         obs.nontrivial(fnv(format!("{name}/{n}").as_bytes()));
@@ -268,6 +322,9 @@ pub fn eval_clone(c: &CloneCase, obs: &mut Obs) -> Result<(), String> {
     if sa != sb {
         return Err(format!("{name}: original declares size {sa}, its clone {sb}"));
     }
+    if !eq {
+        return Err(format!("{name} (content length {n}): the clone does not compare equal (==) to the original"));
+    }
     if a.len() != b.len() || a[..sa] != b[..sb] {
         return Err(format!("{name}: clone bytes {} differ from the original {}", hex(&b[..sb.min(b.len())]), hex(&a[..sa])));
     }
@@ -275,11 +332,11 @@ pub fn eval_clone(c: &CloneCase, obs: &mut Obs) -> Result<(), String> {
 }
 
 fn enumerate_clone(_: &Ctx) -> Box<dyn Iterator<Item = CloneCase>> {
-    Box::new((0..CLONE_KINDS).flat_map(|kind| (0..=40usize).map(move |n| CloneCase { kind, n, key: kind as u64 * 100 + n as u64 })))
+    Box::new((0..CLONE_KINDS).flat_map(|kind| (0..=40usize).flat_map(move |n| [false, true].into_iter().map(move |parsed| CloneCase { kind, n, key: kind as u64 * 100 + n as u64 + ((n as u64) << 9), parsed }))))
 }
 
 fn strategy_clone(_: &Ctx) -> BoxedStrategy<CloneCase> {
-    (0..CLONE_KINDS, 0usize..300, any::<u64>()).prop_map(|(kind, n, key)| CloneCase { kind, n, key }).boxed()
+    (0..CLONE_KINDS, 0usize..300, any::<u64>(), any::<bool>()).prop_map(|(kind, n, key, parsed)| CloneCase { kind, n, key, parsed }).boxed()
 }
 
 pub fn subs() -> Vec<Box<dyn Sub>> {
@@ -297,7 +354,7 @@ pub fn subs() -> Vec<Box<dyn Sub>> {
         }),
         Box::new(PropSub::<CloneCase> {
             name: "clone-kinds",
-            rule: "clone_dyn of every dynamically sized tag kind of both crates built by its public constructor: enumerated content lengths 0..=40 (every padding residue) x 11 kinds; generated lengths up to 300. Oracle: same declared size, same bytes up to that size. Non-trivial = declared size not a multiple of 8; distinct by (kind, length)",
+            rule: "clone_dyn of every dynamically sized tag kind of both crates built by its public constructor, and of 9 kinds parsed from conformant tag images whose padding bytes are 0x5A: enumerated content lengths 0..=40 (every padding residue) x 11 kinds x {constructed, parsed}; generated lengths up to 300. Oracle: same declared size, same bytes up to that size; where the type implements PartialEq: clone == original, original == clone, clone-of-clone == original, !(clone != original). Non-trivial = declared size not a multiple of 8; distinct by (kind, length)",
             profiles: Profiles::Both,
             quick: 10000,
             thorough: 1000000,
